@@ -1461,6 +1461,15 @@ func (ss *ServerSession) handleRequestInner(sc *ServerConn, req *base.Request) (
 					case ProtocolUDP:
 						ss.udpCheckStreamTimer = emptyTimer()
 
+						// while recording with UDP, connections are read without a deadline.
+						// the session is not recording anymore: restore the deadline of the connections
+						// that are waiting for a request, otherwise nothing would notice a silent peer.
+						for oc := range ss.conns {
+							if oc != sc {
+								oc.nconn.SetReadDeadline(time.Now().Add(ss.s.IdleTimeout))
+							}
+						}
+
 					default: // TCP
 						err = switchReadFuncError{false}
 						ss.tcpConn = nil
